@@ -336,6 +336,30 @@ def run(chk: Check) -> None:
     ok = any(any(h.type is not None and 'KeyError' in norm(h.type) and any(isinstance(s, ast.Raise) and 'ValueError' in norm(s.exc) for s in h.body) for h in t.handlers) for t in tr)
     chk.ob('ESC-unknown-class', ld, ok, 'a saved state without a class name is a ValueError', kind='missing-class-name')
 
+    # a nested Savable is written with the loader of the save it is part of: on load it is resolved through the OUTER context's loader
+    # (_get_value passes the load context on), so it has to be identified by that loader when saved -- every nested .save() passes the save context
+    n_nested = 0
+    for f_ in prog.all_funcs():
+        if f_.name not in ('save_instance_state', 'save_members') or f_.owner_class is None:
+            continue
+        ctxp = [p_ for p_ in f_.params if 'context' in p_]
+        # the load side of this class: does it hand the OUTER load context to the nested load?
+        lname = '_get_value' if f_.name == 'save_members' else 'load_instance_state'
+        lf_ = f_.owner_class.methods.get(lname)
+        outer = False
+        if lf_ is not None:
+            lctx = [p_ for p_ in lf_.params if 'context' in p_]
+            outer = any(last_name(c2) == 'load' and len(c2.args) >= 2 and isinstance(c2.args[1], ast.Name) and c2.args[1].id in lctx for c2 in calls_in_func(lf_))
+        if not outer:
+            continue   # the nested state is loaded with a context of its own (no loader in it): default on both sides
+        for c in calls_in_func(f_, 'save'):
+            if isinstance(c.func, ast.Attribute) and norm(c.func.value) not in ('super()',) and not norm(c.func.value).startswith('pickle') and not norm(c.func.value).startswith('yaml'):
+                n_nested += 1
+                passes = bool(ctxp) and any(isinstance(x, ast.Name) and x.id in ctxp for a_ in list(c.args) + [k.value for k in c.keywords] for x in ast.walk(a_))
+                chk.ob('PROV-loader-precedence', f_, passes, f'{norm(c)}: the nested object is saved ' + ('with the save context of its owner' if passes else
+                       'WITHOUT the save context: its class is identified by the global default loader although the load side resolves it through the loader of the outer context -- a '
+                       'per-save custom loader with its own identifier scheme cannot load what it saved'), node=c, kind='nested-save-passes-context')
+    chk.units['nested_saves'] = n_nested
     from .common import outcome_read_after_cancel_test
     outcome_read_after_cancel_test(chk, 'DISP-future-state', 'persistence.SavableFuture.save_instance_state', 'saving a future in any state (a cancelled one included)')
     # 5. futures: a branch per state, exception saved when failed
